@@ -1,4 +1,4 @@
-CONSTANTS NStates = {1, 2, 3, 4}  MaxDur = 3  VLens = {1, 2}  Salts = {0, 1, 2}  WinSets = {1, 2, 3, 4, 5, 6, 7}
+CONSTANTS NStates = {1, 2, 3, 4}  MaxDur = 3  VLens = {1, 2}  Salts = {0, 1, 2}  WinSets = {1, 2, 3, 4, 5, 6, 7, 8, 9}
 SPECIFICATION Spec
 INVARIANTS Structure Emit
 CHECK_DEADLOCK FALSE
